@@ -239,6 +239,14 @@ def aliased_case(rng, base_kind, force_runaway=False):
         fn = rng.choice(["move_file", "move_dir", "copy_file", "copy_dir"])
         sp = H.gen_path(rng, H.snapshot(fa) or [], ["a", "b", "w"], spelling=(rng.random() < 0.3))
         dp = H.gen_path(rng, H.snapshot(fb) or [], ["a", "b", "w"], spelling=(rng.random() < 0.3))
+        if rng.random() < 0.35:
+            # aim both views at the SAME underlying resource (destination equal to the source)
+            cand = [e[1] for e in pre if tuple(e[1].split("/"))[: len(ra)] == ra and tuple(e[1].split("/"))[: len(rb)] == rb
+                    and len(e[1].split("/")) > max(len(ra), len(rb))]
+            if cand:
+                t = tuple(rng.choice(cand).split("/"))
+                sp = "/".join(t[len(ra):])
+                dp = H.spell(rng, "/".join(t[len(rb):])) if rng.random() < 0.5 else "/".join(t[len(rb):])
 
         s_, d_ = comps(sp), comps(dp)
         runaway = (fn in ("move_dir", "copy_dir") and fa is not fb and s_ is not None and d_ is not None
@@ -293,6 +301,15 @@ def judge_aliased(rep, c):
         bad.append(("terminates", "watchdog"))
     if bad:
         case = {k: (v if not isinstance(v, list) else [[e[0], e[1]] + ([e[2].decode("latin-1")] if e[0] == "F" else []) for e in v]) for k, v in c.items()}
+        clean = lambda p: p == "/".join(x for x in p.split("/") if x and x != ".")  # noqa
+        same_file = (s is not None and d is not None and c["ra"] + s == c["rb"] + d and kind in ("move", "copy")
+                     and (c["va"], c["ra"]) != (c["vb"], c["rb"]) or (c["va"] == "twin") != (c["vb"] == "twin"))
+        if (s is not None and d is not None and c["ra"] + s == c["rb"] + d and kind in ("move", "copy")
+                and (c["base"] == "mem" or not (clean(c["sp"]) and clean(c["dp"])))):
+            # open known finding: the copy-then-remove fallback opens the destination for writing
+            # (truncating it) before reading the source, and both are the same file
+            rep.violation(case, "known class", found_input=True, signature="C05/known/aliased-views-same-file-truncated")
+            return
         rep.violation(case, "fs.%s(%s view %r:%r -> %s view %r:%r of one %s) — %s: %s" % (
             c["fn"], c["va"], "/".join(c["ra"]), c["sp"], c["vb"], "/".join(c["rb"]), c["dp"], c["base"], bad[0][0], bad[0][1]),
             found_input=True, signature="C05/aliased/%s/%s" % (c["fn"], bad[0][0]))
